@@ -1,0 +1,5 @@
+//go:build !verif
+
+package fio
+
+func verifIO(string, string, int64) func() { return func() {} }
